@@ -26,8 +26,9 @@ type stab struct {
 }
 
 type schg struct {
-	k        string // MS AS DS AT MT DT OT
-	s        *string
+	k        string  // MS AS DS AT MT DT RT OT
+	s        *string // MS: schema; RT: From.Schema
+	s2       *string // RT: To.Schema
 	t        stab
 	mentions []string
 }
@@ -52,6 +53,8 @@ func (c schg) tok() string {
 		return c.k
 	case "AT", "MT", "DT":
 		return c.k + " " + c.t.tok()
+	case "RT":
+		return join("RT", opt(c.s), opt(c.s2))
 	}
 	ts := []string{"OT", strconv.Itoa(len(c.mentions))}
 	for _, m := range c.mentions {
@@ -87,16 +90,22 @@ func (c schg) real(i int) schema.Change {
 		return &schema.ModifyTable{T: c.t.real(name)}
 	case "DT":
 		return &schema.DropTable{T: c.t.real(name)}
+	case "RT":
+		return &schema.RenameTable{
+			From: &schema.Table{Name: name, Schema: mkSchema(c.s)},
+			To:   &schema.Table{Name: name + "x", Schema: mkSchema(c.s2)},
+		}
 	}
+	// the change kinds CheckChangesScope skips
 	switch len(c.mentions) {
 	case 0:
 		return &schema.AddView{V: &schema.View{Name: "v"}}
 	case 1:
 		return &schema.AddObject{O: &schema.EnumType{T: "e", Schema: schema.New(c.mentions[0])}}
 	default:
-		return &schema.RenameTable{
-			From: &schema.Table{Name: name, Schema: schema.New(c.mentions[0])},
-			To:   &schema.Table{Name: name + "x", Schema: schema.New(c.mentions[1])},
+		return &schema.RenameObject{
+			From: &schema.EnumType{T: "e", Schema: schema.New(c.mentions[0])},
+			To:   &schema.EnumType{T: "f", Schema: schema.New(c.mentions[1])},
 		}
 	}
 }
@@ -134,6 +143,9 @@ func specNames(cs []schg) map[string]bool {
 		switch c.k {
 		case "MS":
 			add(c.s)
+		case "RT":
+			add(c.s)
+			add(c.s2)
 		case "AT", "MT", "DT":
 			add(c.t.schema)
 			for _, col := range c.t.cols {
@@ -293,12 +305,16 @@ func scopeAlphabet() []schg {
 		schg{k: "OT"},
 		schg{k: "OT", mentions: []string{"s2"}},
 		schg{k: "OT", mentions: []string{"s1", "s2"}},
+		schg{k: "RT", s: s1, s2: s2},
+		schg{k: "RT", s: s1, s2: s1},
+		schg{k: "RT", s: nil, s2: s2},
+		schg{k: "RT", s: se, s2: s1},
 	)
 	return al
 }
 
 func runScope(w *out.W, tier string) {
-	w.Rule = "a case is non-trivial when the change set names more than one schema, or has an enum column whose schema differs from its table's, or a non-table change that names a schema"
+	w.Rule = "a case is non-trivial when the change set names more than one schema, or has an enum column whose schema differs from its table's, or an object change that names a schema"
 	al := scopeAlphabet()
 	quals := []*string{nil, se, s1}
 	modes := []migrate.PlanMode{0, 1, 2, 3, 4}
@@ -361,6 +377,8 @@ func rschg(r *rng.R) schg {
 		return schg{k: "MS", s: rng.Pick(r, []*string{s1, s1, s2, nil})}
 	case 1:
 		return schg{k: rng.Pick(r, []string{"AS", "DS"})}
+	case 3:
+		return schg{k: "RT", s: rsch3(r), s2: rsch3(r)}
 	case 2:
 		var ms []string
 		for i := r.Intn(3); i > 0; i-- {
